@@ -262,8 +262,11 @@ def tree_3(ctx, rep):
                'isinstance(node, BaseNode)', 'isinstance(node, Node)', 'node.token_type', 'node.value', 'node.start_pos',
                'prefix=', 'node.children', 'type(node).__name__']
     missing = [a for a in anchors if a not in src]
-    rep.ob('TREE-3', TREE, dump.qual, 'category branches of _format_dump', not missing,
-           'dump() changed its output categories (%s): the constructor agreement below is no longer the right one' % missing)
+    if missing:
+        # not a finding about the tree classes: the rule no longer recognises how dump() prints a node
+        raise AnalysisError('TREE-3: the formatter of dump() is not recognised any more (missing %s): the agreement between '
+                            'what it prints and the constructors cannot be checked' % missing)
+    rep.ob('TREE-3', TREE, dump.qual, 'category branches of _format_dump', True)
     leaf = prog.cls(TREE, 'Leaf')
     eleaf = prog.cls(TREE, 'ErrorLeaf')
     tleaf = prog.cls(TREE, 'TypedLeaf')
